@@ -231,6 +231,41 @@ def batch_level(case):
           'keys': [[fam, n, pad, kind, bool(case.get('nomask')), case.get('layout', 'tail')]]}
 
 
+def mixed_streams(case):
+  """One evaluate_model call over a stream that mixes batches WITHOUT a mask feature (ClientDataset.batch output, hand-made
+  batches) and padded batches, in every order, as a list and as a generator; and single batches whose row count is a
+  large round number (1024, 2048, 3072 rows) or just beside one."""
+  import fedjax
+  fam = case['family']
+  specs, mets, model, pool, poison, singles, zeros = family(fam)
+  evals = 0
+  if case['kind'] == 'mixed':
+    parts = [('plain', [0, 1, 2]), ('padded', [3, 4]), ('plain', [1]), ('padded', [2, 0, 0])]
+    for order in itertools.permutations(range(len(parts))):
+      seq, batches = [], []
+      for pi in order:
+        kind, idxs = parts[pi]
+        seq += idxs
+        batches.append(make_batch(pool, poison, idxs, 0 if kind == 'plain' else 2, 'poison', with_mask=kind != 'plain'))
+      for as_gen in (False, True):
+        res = fedjax.evaluate_model(model, {}, (b for b in batches) if as_gen else batches)
+        for k in mets:
+          _cmp_result(k, res[k], fold(singles[k], zeros[k], seq), 'evaluate_model over plain and padded batches in order %r' % (order,),
+                      dict(case, order=list(order)))
+        evals += 1
+  else:
+    for rows in case['rows']:
+      seq = [i % len(pool) for i in range(rows)]
+      for pad in (0, 3):
+        b = make_batch(pool, poison, seq, pad, 'poison')
+        res = fedjax.evaluate_model(model, {}, [b])
+        for k in mets:
+          _cmp_result(k, res[k], fold(singles[k], zeros[k], seq), 'evaluate_model on one batch of %d rows (+%d padded)' % (rows, pad),
+                      dict(case, rows=[rows]))
+        evals += 1
+  return {'evals': evals, 'nontrivial': True, 'outcome': [fam, case['kind']]}
+
+
 def compositions(n):
   """All ways to cut range(n) into consecutive non-empty parts."""
   for cuts in itertools.product((0, 1), repeat=n - 1):
@@ -439,7 +474,7 @@ def pmap_evaluator(case):
   return {'evals': evals, 'nontrivial': True, 'outcome': [fam, ndev]}
 
 
-SUBS = {'model_replace': model_replace, 'pmap_evaluator': pmap_evaluator, 'batch_level': batch_level, 'partition_level': partition_level, 'monoid': monoid, 'empty': empty}
+SUBS = {'mixed_streams': mixed_streams, 'model_replace': model_replace, 'pmap_evaluator': pmap_evaluator, 'batch_level': batch_level, 'partition_level': partition_level, 'monoid': monoid, 'empty': empty}
 TIMEOUTS = {k: 900 for k in SUBS}
 
 
@@ -488,6 +523,9 @@ def plan(ctx):
       for seq in itertools.product((0, 1, 3), repeat=4):
         pl.append({'family': fam, 'seq': list(seq), 'pads': [(0, 'zeros'), (2, 'poison')], 'evaluator': seq[0] == 1})
   ctx.pmap('partition_level', pl, chunk=8)
+  ctx.pmap('mixed_streams', [{'family': f, 'kind': 'mixed'} for f in ('cls', 'seq')] +
+           [{'family': f, 'kind': 'big', 'rows': r} for f in ('cls', 'seq') for r in ([1023, 1024, 1025], [2048], [3072, 4095]) if th or r != [3072, 4095]],
+           chunk=1)
   ctx.pmap('monoid', [{'family': f, 'metric': k} for f in ('cls', 'seq') for k in FAMILIES[f][0]()], chunk=2)
   ctx.pmap('model_replace', [{'family': f} for f in ('cls', 'seq')], chunk=1)
   ctx.pmap('pmap_evaluator', [{'family': f, 'devices': d} for f in ('cls', 'seq') for d in ((2, 3, 4) if th else (2, 3))], chunk=1)
